@@ -38,6 +38,46 @@ type c19Case struct {
 	Clone    bool        `json:"through_a_clone"` // client chain: requests go through client.Clone()
 	// PreServe: server chains: this many stages are registered before a first (warm-up) request is served, the rest after it
 	PreServe int `json:"stages_registered_before_first_request"`
+	// SharedList > 0: the first SharedList stages are registered with ONE variadic call from a slice that has spare
+	// capacity; a sibling executor (client) is given the same slice plus a foreign stage, and the caller then goes on
+	// using its slice (appends the foreign stage, overwrites the first element). None of that may reach this chain.
+	SharedList int `json:"stages_registered_from_one_shared_slice,omitempty"`
+}
+
+// registerStages hands the stages to an executor: one Use call per stage, or (SharedList) the first ones through a
+// shared slice as described at c19Case.SharedList.
+func registerStages[M any](use func(...M), siblingUse func(...M), mws []M, c c19Case, foreign M, warm func()) {
+	k := c.SharedList
+	if k > len(mws) {
+		k = len(mws)
+	}
+	start := 0
+	if k > 0 {
+		if c.PreServe == 0 {
+			warm()
+		}
+		list := make([]M, 0, len(mws)+4)
+		list = append(list, mws[:k]...)
+		use(list...)
+		if c.PreServe > 0 && c.PreServe < k {
+			warm()
+		}
+		start = k
+		defer func() {
+			// after this chain is complete: the sibling and the caller use the same slice
+			siblingUse(list...)
+			siblingUse(foreign)
+			list = append(list, foreign)
+			list[0] = foreign
+			_ = list
+		}()
+	}
+	for i := start; i < len(mws); i++ {
+		if c.PreServe >= 0 && i == c.PreServe && (k == 0 || i >= k) {
+			warm()
+		}
+		use(mws[i])
+	}
 }
 
 type traceKey struct{}
@@ -207,12 +247,10 @@ func coreHandler() kmipserver.OperationHandler {
 func runServerMessage(c c19Case, reqIdx int) ([]string, modelRes) {
 	exec := kmipserver.NewBatchExecutor()
 	exec.Route(kmip.OperationActivate, coreHandler())
+	var mws []kmipserver.Middleware
 	for i, p := range c.Stages {
 		i, p := i, p
-		if c.PreServe >= 0 && i == c.PreServe {
-			warmUp(exec)
-		}
-		exec.Use(func(next kmipserver.Next, ctx context.Context, rm *kmip.RequestMessage) (*kmip.ResponseMessage, error) {
+		mws = append(mws, func(next kmipserver.Next, ctx context.Context, rm *kmip.RequestMessage) (*kmip.ResponseMessage, error) {
 			return toReturn(runStage(p, i, ctx, msgID(rm), func(cctx context.Context, id string) modelRes {
 				m := rm
 				if id != msgID(rm) {
@@ -222,10 +260,24 @@ func runServerMessage(c c19Case, reqIdx int) ([]string, modelRes) {
 			}))
 		})
 	}
+	sibling := kmipserver.NewBatchExecutor()
+	registerStages(exec.Use, sibling.Use, mws, c, func(next kmipserver.Next, ctx context.Context, rm *kmip.RequestMessage) (*kmip.ResponseMessage, error) {
+		foreignEvent(ctx)
+		return next(ctx, rm)
+	}, func() { warmUp(exec) })
 	tr := &trace{}
 	ctx := context.WithValue(context.Background(), traceKey{}, tr)
 	resp := exec.HandleRequest(ctx, mkRequest(fmt.Sprintf("r%d", reqIdx)))
 	return tr.events, respID(resp, nil)
+}
+
+// foreignEvent marks the trace: a stage that was never registered on this chain ran.
+func foreignEvent(ctx context.Context) {
+	if tr, ok := ctx.Value(traceKey{}).(*trace); ok {
+		tr.mu.Lock()
+		tr.events = append(tr.events, "FOREIGN-STAGE")
+		tr.mu.Unlock()
+	}
 }
 
 // warmUp serves one request with the stages registered so far (its trace goes to a throw-away log).
@@ -260,12 +312,10 @@ func runServerItem(c c19Case, reqIdx int) ([]string, modelRes) {
 		}
 		return modelRes{id: "?"}
 	}
+	var mws []kmipserver.BatchItemMiddleware
 	for i, p := range c.Stages {
 		i, p := i, p
-		if c.PreServe >= 0 && i == c.PreServe {
-			warmUp(exec)
-		}
-		exec.BatchItemUse(func(next kmipserver.BatchItemNext, ctx context.Context, bi *kmip.RequestBatchItem) (*kmip.ResponseBatchItem, error) {
+		mws = append(mws, func(next kmipserver.BatchItemNext, ctx context.Context, bi *kmip.RequestBatchItem) (*kmip.ResponseBatchItem, error) {
 			r := runStage(p, i, ctx, itemID(bi), func(cctx context.Context, id string) modelRes {
 				b := bi
 				if id != itemID(bi) {
@@ -282,6 +332,11 @@ func runServerItem(c c19Case, reqIdx int) ([]string, modelRes) {
 			return out, nil
 		})
 	}
+	sibling := kmipserver.NewBatchExecutor()
+	registerStages(exec.BatchItemUse, sibling.BatchItemUse, mws, c, func(next kmipserver.BatchItemNext, ctx context.Context, bi *kmip.RequestBatchItem) (*kmip.ResponseBatchItem, error) {
+		foreignEvent(ctx)
+		return next(ctx, bi)
+	}, func() { warmUp(exec) })
 	tr := &trace{}
 	ctx := context.WithValue(context.Background(), traceKey{}, tr)
 	resp := exec.HandleRequest(ctx, mkRequest(fmt.Sprintf("r%d", reqIdx)))
@@ -334,14 +389,37 @@ func runClient(c c19Case) (traces [][]string, finals []modelRes, coreLogs [][]st
 			}))
 		})
 	}
-	cl, derr := kmipclient.Dial("verif", kmipclient.EnforceVersion(kmip.V1_4), kmipclient.WithMiddlewares(mws...),
-		kmipclient.WithDialerUnsafe(func(ctx context.Context) (net.Conn, error) {
-			a, b := memnet.Pipe()
-			go srv.serve(b)
-			return a, nil
-		}))
+	mwOpts := []kmipclient.Option{kmipclient.WithMiddlewares(mws...)}
+	var shared []kmipclient.Middleware
+	if k := min(c.SharedList, len(mws)); k > 0 {
+		// the first k stages come from a slice with spare capacity that the caller goes on using after Dial
+		shared = make([]kmipclient.Middleware, 0, len(mws)+4)
+		shared = append(shared, mws[:k]...)
+		mwOpts = []kmipclient.Option{kmipclient.WithMiddlewares(shared...)}
+		if k < len(mws) {
+			mwOpts = append(mwOpts, kmipclient.WithMiddlewares(mws[k:]...))
+		}
+	}
+	dialer := kmipclient.WithDialerUnsafe(func(ctx context.Context) (net.Conn, error) {
+		a, b := memnet.Pipe()
+		go srv.serve(b)
+		return a, nil
+	})
+	cl, derr := kmipclient.Dial("verif", append(append([]kmipclient.Option{kmipclient.EnforceVersion(kmip.V1_4)}, mwOpts...), dialer)...)
 	if derr != nil {
 		return nil, nil, nil, derr
+	}
+	if shared != nil {
+		foreign := func(next kmipclient.Next, ctx context.Context, rm *kmip.RequestMessage) (*kmip.ResponseMessage, error) {
+			foreignEvent(ctx)
+			return next(ctx, rm)
+		}
+		// a sibling client gets the same slice plus a stage of its own, and the caller goes on using its slice
+		if sib, serr := kmipclient.Dial("verif", kmipclient.EnforceVersion(kmip.V1_4), kmipclient.WithMiddlewares(shared...), kmipclient.WithMiddlewares(foreign), dialer); serr == nil {
+			_ = sib.Close()
+		}
+		shared = append(shared, foreign)
+		shared[0] = foreign
 	}
 	defer cl.Close()
 	if c.Clone {
@@ -519,6 +597,9 @@ func TestC19Chains(t *testing.T) {
 		c.PreServe = -1
 		if c.Chain != "client" && n > 0 && rapid.Bool().Draw(rt, "registerlater") {
 			c.PreServe = rapid.IntRange(0, n-1).Draw(rt, "preserve")
+		}
+		if n > 0 && rapid.IntRange(0, 2).Draw(rt, "sharedlist") == 0 {
+			c.SharedList = rapid.IntRange(1, n).Draw(rt, "sharedlen")
 		}
 		for i := 0; i < n; i++ {
 			var p stageProg
